@@ -274,22 +274,28 @@ class Program:
             if n_ds:
                 inlined = inlined + [f"desugared {n_ds} walrus / suppress() construct(s)"]
 
-            n_sc = scalarise_records(tree)
-            if n_sc:
-                inlined = inlined + [f"scalarised {n_sc} record local(s)"]
-            from .normalize import coalesce_copies
+            from .normalize import coalesce_copies, propagate_param_copies
 
-            from .normalize import propagate_param_copies
-
-            n_pc = propagate_param_copies(tree)
-            if n_pc:
-                inlined = inlined + [f"propagated {n_pc} copies of parameters"]
-            n_cc = coalesce_copies(tree)
-            if n_cc:
-                inlined = inlined + [f"coalesced {n_cc} plain copies"]
-            n_fs = forward_substitute_temps(tree)
-            if n_fs:
-                inlined = inlined + [f"forward-substituted {n_fs} adjacent single-use temporaries / bool() tests"]
+            tot = {"sc": 0, "pc": 0, "cc": 0, "fs": 0}
+            for _round in range(3):
+                n_pc = propagate_param_copies(tree)
+                n_cc = coalesce_copies(tree)
+                n_sc = scalarise_records(tree)
+                n_fs = forward_substitute_temps(tree)
+                tot["pc"] += n_pc
+                tot["cc"] += n_cc
+                tot["sc"] += n_sc
+                tot["fs"] += n_fs
+                if not (n_pc or n_cc or n_sc):
+                    break
+            if tot["sc"]:
+                inlined = inlined + [f"scalarised {tot['sc']} record local(s)"]
+            if tot["pc"]:
+                inlined = inlined + [f"propagated {tot['pc']} copies of parameters"]
+            if tot["cc"]:
+                inlined = inlined + [f"coalesced {tot['cc']} plain copies"]
+            if tot["fs"]:
+                inlined = inlined + [f"forward-substituted {tot['fs']} adjacent single-use temporaries / bool() tests"]
             from .normalize import expand_search_idioms, unroll_table_loops
 
             n_se = expand_search_idioms(tree)
